@@ -141,6 +141,10 @@ def run_job(job):
     loop_obl = 0
     for r in results:
         prop = r["property"]
+        if (".unwind." in prop or "unwinding assertion" in r.get("description", "")) and r["status"] == "FAILURE":
+            # (also inside the contracts library: a cut loop there would make later obligations vacuous)
+            n_unwind += 1
+            continue
         if prop.startswith("__CPROVER_contracts") or prop.startswith("__CPROVER_"):
             continue
         desc = r.get("description", "")
@@ -216,7 +220,7 @@ def run_job(job):
         res["reason"] = "zero obligations generated"
         return res
     if n_fail:
-        res["status"] = "refuted"
+        res["status"] = "refuted"     # (an assertion that fails before a cut loop is a real counterexample)
     elif n_unwind:
         res["status"] = "error"
         res["reason"] = "unwinding assertion failed (%d): a loop without loop contract exceeds the unwind bound for the inputs the harness allows -- inconclusive, not a violation" % n_unwind
